@@ -27,6 +27,9 @@ EXPLANATION += (
     ' ADDED: The irregular filler is checked on polynomials over (plane_set_id, blockshape[k], i, il_step, min_il, len(geom.xlines), crossline ordinal / number): key order, inline number = (set*bs0 + i)*il_step + min_il, header position = xl ordinal + (set*bs0 + i)*grid width, stores only under the membership test (`key in traces_ref` or `traces_ref.get(key) is not None`). C08.5: the trace ordinal becomes a grid position by selecting the i-th populated mask entry (arange[mask][i], flatnonzero(mask)[i], nonzero/where(mask)[0][i]); a trace ordinal that subscripts the mask itself is a frame error. C08.6 has a floor and also covers an unconditional store.'
 )
 EXPLANATION += (
+    ' ADDED (round 4): C08.7 - thorough detection turns a stored array into a table constant only under np.all(A == A[k]) with A the WHOLE array headers_dict[word] (or the value variable of the loop over its items): a test on a subset (zeros / unpopulated positions dropped) makes a word that is 0 on some real traces constant. C08.2 reads which key component an id collection holds from how it was built (comprehension or .add(key[k]) loop), not from its name.'
+)
+EXPLANATION += (
     ' C08.2 also: each Geometry3d argument of the inferred geometry is built only from quantities of its own axis (a crossline bound must not contain the inline step).'
 )
 ASSUMPTIONS = ['header codes 189 / 193 are INLINE_3D / CROSSLINE_3D', 'names denote what they say']
